@@ -76,7 +76,8 @@ def compare_public(server, res):
     the fully imported pristine server."""
     viol = []
     mine = server.base["public"][0]
-    theirs = res.get("public_end") or {}
+    slots = server.base["data"][1]     # empty at import: lazily filled caches, not constants
+    theirs = {k: v for k, v in (res.get("public_end") or {}).items() if k not in slots}
     loaded = set(res.get("modules_end") or [])
     bad = sorted(k for k, v in theirs.items() if k in mine and mine[k] != v)
     missing = sorted(k for k in mine if k.split(":", 1)[0] in loaded and k not in theirs)
